@@ -6,10 +6,9 @@ git -C /repo archive HEAD src | tar -x -C "$D"
 cp /repo/src/easynetwork/version.py "$D/src/easynetwork/version.py"
 (cd "$D" && patch -s -p1 < "$P") || { echo "patch does not apply"; rm -rf "$D"; exit 2; }
 cd /verif
-cp evidence/$ID.json /tmp/ev_$ID.bak 2>/dev/null
-VERIF_REPO=$D timeout 3000 /venv/bin/python -m vf.check $ID --tier $TIER > /tmp/try_$ID.log 2>&1
+E=$(mktemp -d /tmp/mutev_XXXX)
+VERIF_EVIDENCE_DIR=$E VERIF_REPO=$D timeout 3000 /venv/bin/python -m vf.check $ID --tier $TIER > /tmp/try_$ID.log 2>&1
 rc=$?
-cp /tmp/ev_$ID.bak evidence/$ID.json 2>/dev/null
-rm -rf "$D"
-grep -A1 "^VIOLATION\|^KNOWN\|MACHINERY" /tmp/try_$ID.log | cut -c1-420 | head -6
+rm -rf "$D" "$E"
+grep -A1 "^VIOLATION\|^KNOWN\|MACHINERY" /tmp/try_$ID.log | sed "s#$E#<scratch evidence>#" | cut -c1-420 | head -6
 echo "exit=$rc"
